@@ -17,7 +17,7 @@ persistence, and create delays in signal processing.
 from dataclasses import dataclass, field
 from typing import Callable, Any
 from enum import Enum
-from datetime import datetime, timedelta
+from datetime import datetime, timedelta, timezone
 import threading
 import hashlib
 
@@ -168,6 +168,9 @@ class CoherentFeedForwardLoop:
         self._failure_count = 0
         self._success_count = 0
         self._last_failure: datetime | None = None
+        # Instant of the last failure on the UTC time line: the recovery window is measured
+        # on it, so that steps of the local wall clock (DST, zone changes) do not stretch or cut it
+        self._last_failure_instant: datetime | None = None
         self._last_success: datetime | None = None
         self._trips_count = 0
 
@@ -446,7 +449,8 @@ class CoherentFeedForwardLoop:
 
             if self._circuit_state == CircuitState.OPEN:
                 # Check if recovery timeout has passed
-                if self._last_failure and datetime.now() - self._last_failure >= self.recovery_timeout:
+                if (self._last_failure_instant is not None
+                        and datetime.now(timezone.utc) - self._last_failure_instant >= self.recovery_timeout):
                     self._circuit_state = CircuitState.HALF_OPEN
                     if not self.silent:
                         print("🔌 [CFFL] Circuit half-open, testing...")
@@ -478,6 +482,7 @@ class CoherentFeedForwardLoop:
             self._failure_count += 1
             self._total_errors += 1
             self._last_failure = datetime.now()
+            self._last_failure_instant = datetime.now(timezone.utc)
 
             if self._circuit_state == CircuitState.HALF_OPEN:
                 # Recovery failed
